@@ -43,8 +43,14 @@ P = gen_docs.ALL_PLUGINS
 def pumps(r):
     n = r.choice([8, 40, 120, 400])
     k = r.random()
-    if k < 0.06:
+    if k < 0.03:
         return "> " * n + "x\n"
+    if k < 0.06:
+        # staircase: every line indented a fixed step deeper than the one before, each starting with a block marker
+        step = r.choice([2, 3, 4, 4])
+        marks = r.choice([[": "], ["- "], [":   "], ["> "], ["1. "], [": ", "- "], ["- ", ": "], ["* ", "> "]])
+        d = min(n, 400)
+        return r.choice(["t0\n", "", "t0\n\n"]) + "".join(" " * (step * i) + marks[i % len(marks)] + "t%d\n" % (i + 1) for i in range(d))
     if k < 0.12:
         # containers that interrupt each other line by line
         a, b = r.sample(["- a\n", "> b\n", "1. c\n", "* d\n", ">\n", "+ e\n"], 2)
@@ -90,6 +96,16 @@ def hostile(r):
     for _ in range(r.randint(1, 8)):
         out.insert(r.randrange(len(out) + 1), r.choice(HOSTILE))
     return "".join(out)
+
+
+def staircases():
+    """systematic: every container marker (core and plugins) x indentation step x head line, 400 levels"""
+    out = []
+    for marks in ([": "], [":   "], ["- "], ["> "], ["1. "], ["[^n]: "], [": ", "- "], ["- ", ": "], ["> ", ": "], ["- ", "> "]):
+        for step in (2, 3, 4):
+            for head in ("", "t0\n"):
+                out.append(head + "".join(" " * (step * i) + marks[i % len(marks)].replace("n", str(i)) + "t%d\n" % (i + 1) for i in range(400)))
+    return out
 
 
 def surrogate(r):
@@ -164,6 +180,11 @@ def oracle(ctx, extra):
         for e in extra:
             if isinstance(e, str):
                 check(w, {"renderer": "html", "plugins": P}, e, fails, limit)
+        for doc in staircases():
+            dist["pump"] += 1
+            for cfg in ({"renderer": "html", "plugins": list(P)}, {"renderer": "ast", "plugins": list(P), "hard_wrap": True}):
+                check(w, cfg, doc, fails, limit)
+                n += 1
         for i in range(ctx.n(3000, 60000)):
             k = r.random()
             if k < 0.45:
@@ -190,8 +211,8 @@ def oracle(ctx, extra):
     fails = [f for f in fails if not f.get("class")] + known[:3]
     return {"evaluations": n, "distinct_nontrivial": n // 2, "failures": fails, "known_finding_instances": len(known),
             "input_distribution": dist,
-            "rule": "documents: 45% generated (all plugins, directives), 15% nesting pumps (quotes, lists, mixed containers, "
-                    "emphasis, brackets, alternating link/image, code ticks, angle brackets, RST/colon/backtick directives, "
+            "rule": "first 60 systematic indentation staircases (10 marker sets of core and plugin containers x step 2/3/4 x with/without a head line, 400 levels) under all plugins, html and ast; then documents: 45% generated (all plugins, directives), 15% nesting pumps (quotes, lists, mixed containers, "
+                    "emphasis, brackets, alternating link/image, code ticks, angle brackets, indentation staircases of block markers, RST/colon/backtick directives, "
                     "formatting plugins, def lists and tables; depth/length 8-400), 12% generated documents with hostile code "
                     "points inserted (controls, line/paragraph separators, BOM, non-characters, combining, bidi, astral), 3% lone "
                     "surrogates, 12% noise up to 200 tokens, 13% interrupt/lazy fragments; each document under 2 sampled "
